@@ -728,6 +728,13 @@ func EvalFunction(env *Zlisp, name string, args []Sexp) (Sexp, error) {
 	newfunc := ZlispFunction(gen.instructions)
 	orig := &SexpArray{Val: args}
 	sfun := env.MakeFunction("evalGeneratedFunction", 0, false, newfunc, orig)
+	// free variables of the evaluated form resolve like those of the code that
+	// called eval: through that function's chain of closures.
+	if top, err := env.addrstack.Get(0); err == nil {
+		if caller, ok := top.(Address); ok {
+			sfun.parent = caller.function
+		}
+	}
 
 	err = env.CallFunction(sfun, 0)
 	if err != nil {
